@@ -7,7 +7,12 @@ import (
 	"time"
 )
 
-func c09Scenarios(tier string) []*Scenario {
+func c09Scenarios(tier string) []*Scenario { return hedgeTimingScenarios("C09", tier, "") }
+
+// hedgeTimingScenarios is the C09 family: hedged executions whose attempts return before, at and after
+// the instants the hedge delays expire. With extra = "events" / "stats" the event (C16) and statistics
+// (C17) contracts are evaluated on every schedule as well, over the bare-hedge part of the family.
+func hedgeTimingScenarios(prop, tier, extra string) []*Scenario {
 	const D = 50 * time.Nanosecond
 	bound := 1
 	if tier == "thorough" {
@@ -31,8 +36,11 @@ func c09Scenarios(tier string) []*Scenario {
 		return ""
 	}
 	add := func(name string, stack []Spec, script []Out, b int) {
+		if extra != "" && len(stack) != 1 {
+			return // the event and statistics contracts of the other layers need the C01 runner's reference state
+		}
 		out = append(out, &Scenario{
-			Name:  fmt.Sprintf("C09/%s [%s] script=%s", name, stackStr(stack), scriptStr(script)),
+			Name:  fmt.Sprintf("%s/%s [%s] script=%s", prop, name, stackStr(stack), scriptStr(script)),
 			Bound: b, Reduce: true,
 			Body: func() {
 				env := NewEnv(stack)
@@ -46,6 +54,14 @@ func c09Scenarios(tier string) []*Scenario {
 					fail(msg)
 				} else if msg := check(env); msg != "" {
 					fail(msg)
+				} else if extra == "events" {
+					if msg := env.checkEvents(NewRefState(stack)); msg != "" {
+						fail("events: " + msg)
+					}
+				} else if extra == "stats" {
+					if msg := env.checkStats(); msg != "" {
+						fail("statistics: " + msg)
+					}
 				}
 			},
 		})
